@@ -240,7 +240,7 @@ def to_float(a):
     return a
 
 
-def compare(name, code, spec, scale, exact_expected, real_t):
+def compare(name, code, spec, scale, exact_expected, real_t, mag=None):
     """-> None if equal, else description.  spec: integer array (scaled)."""
     spec = np.asarray(spec)
     if code.dtype == object:
@@ -264,7 +264,8 @@ def compare(name, code, spec, scale, exact_expected, real_t):
             return f"{name}: {len(w)} cells differ (bit-exact expected), first {i}: code={c[i]} spec={spec[i]}"
         return None
     eps = float(np.finfo(real_t).eps)
-    tol = 512 * eps * max(1.0, float(np.abs(spec).max()))
+    # rounding allowance from operand magnitudes (results may cancel)
+    tol = 64 * eps * max(1.0, float(np.abs(spec).max()), float(mag or 0.0))
     d = np.abs(c - spec)
     if d.max() > tol:
         i = np.unravel_index(np.argmax(d), d.shape)
@@ -291,12 +292,15 @@ def replay_emit(e, real_t=np.float64, backend="compile", arena_mode="contig", nu
     scaled = SCALED.get(op["name"], set())
     unspec = UNSPECIFIED.get(op["name"], set())
     exact_expected = op["name"] not in INEXACT
+    M = max(float(np.abs(np.array(a, dtype=float)).max()) for a in e["pre"]["s"] + e["pre"]["v"])
+    P = max(abs(float(x)) for x in ps)
+    mag = sc * (M + 8 * D * P * M * M * (1 + P * M) ** 2)
     for kind, arrs, post in (("s", s, e["post"]["s"]), ("v", v, e["post"]["v"])):
         for j, (a, pz) in enumerate(zip(arrs, post)):
             if (kind, j) in unspec:
                 continue
             is_scaled = (kind, j) in scaled
-            r = compare(f"{kind}[{j + 1}]", a, np.array(pz), sc if is_scaled else 1, exact_expected or not is_scaled, real_t)
+            r = compare(f"{kind}[{j + 1}]", a, np.array(pz), sc if is_scaled else 1, exact_expected or not is_scaled, real_t, mag)
             if r:
                 errs.append(r)
     if not arena.guards_intact():
